@@ -51,8 +51,9 @@ Lemma skel_HTPdelete : HTPdelete_skel =
 Proof. reflexivity. Qed.
 Lemma skel_Hnewref : Hnewref_skel =
   ["if(file_rec->maxref<((uint16)65535))"; "ret_value=++(file_rec->maxref);"; "else";
-   "for(i_ref=1;i_ref<=(uint32)((uint16)65535);i_ref++)"; "HTIfind_dd(file_rec,(uint16)0,ref,&dd_ptr,1)";
-   "ret_value=ref;"; "break;"].                                                          (* newref, first_free *)
+   "for(i_ref=1;i_ref<=(uint32)((uint16)65535);i_ref++)"; "dd_t*dd_ptr=((void*)0);";
+   "HTIfind_dd(file_rec,(uint16)0,ref,&dd_ptr,1)"; "ret_value=ref;"; "break;"].
+   (* newref, first_free: every candidate is searched from the head of the DD list (dd_ptr reset inside the loop) *)
 Proof. reflexivity. Qed.
 (* every forward walk of HTIfind_dd goes over ALL DD blocks: outer loop over the block list, inner loop over the
    block, index reset to 0 before the next block (find_null, has_dd, ref_used, find_dd walk all blocks) *)
@@ -81,6 +82,24 @@ Lemma census_f_end_off : f_end_off_writers =
    "HTPinit: file_rec->f_end_off=block->myoffset+(NDDS_SZ+OFFSET_SZ)+(block->ndds*DD_SZ)";
    "HTInew_dd_block: file_rec->f_end_off=block->myoffset+(NDDS_SZ+OFFSET_SZ)+(block->ndds*DD_SZ)";
    "HTIupdate_dd: file_rec->f_end_off=dd_ptr->offset+dd_ptr->length"].
+Proof. reflexivity. Qed.
+(* Hread adds reserved space to the file before reading (op_get); every physical position change and transfer goes
+   through HPseek / HP_write / HP_read, which keep f_cur_off / last_op (the model's "a write lands at the offset
+   the caller sought" rests on it) *)
+Lemma skel_Hread : Hread_skel =
+  ["if(file_rec->cache&&(file_rec->dirty&0x02))"; "HIextend_file(file_rec)"; "file_rec->dirty&=~0x02;";
+   "HPseek(file_rec,access_rec->posn+data_off)"; "HP_read(file_rec,data,length)"].
+Proof. reflexivity. Qed.
+Lemma skel_HP_write : HP_write_skel =
+  ["if(file_rec->last_op==H4_OP_READ||file_rec->last_op==H4_OP_UNKNOWN)"; "file_rec->last_op=H4_OP_UNKNOWN;";
+   "HPseek(file_rec,file_rec->f_cur_off)"; "file_rec->f_cur_off+=bytes;"; "file_rec->last_op=H4_OP_WRITE;"].
+Proof. reflexivity. Qed.
+Lemma skel_HPseek : HPseek_skel =
+  ["if(file_rec->f_cur_off!=offset||file_rec->last_op==H4_OP_UNKNOWN)"; "file_rec->f_cur_off=offset;";
+   "file_rec->last_op=H4_OP_SEEK;"].
+Proof. reflexivity. Qed.
+Lemma census_raw_stream : raw_stream_users =
+  ["HIvalid_magic: HI_SEEK("; "HIvalid_magic: HI_READ("; "HP_read: HI_READ("; "HPseek: HI_SEEK("; "HP_write: HI_WRITE("].
 Proof. reflexivity. Qed.
 Lemma census_maxref : maxref_writers =
   ["Hopen: file_rec->maxref=0"; "Hstartaccess: file_rec->maxref=new_ref"; "HTPstart: file_rec->maxref=0";
@@ -300,8 +319,49 @@ Proof.
   intros U. destruct (update_dd_mono _ _ _ _ e Hc He _ _ U) as [-> M]. exact M.
 Qed.
 
+Lemma op_get_mono fr e :
+  f_cache fr = true -> e <= f_end fr ->
+  forall fr' w, op_get fr = (fr', w) ->
+  mono e fr fr' w /\ f_end fr' = f_end fr /\ f_blocks fr' = f_blocks fr.
+Proof.
+  intros Hc He fr' w. unfold op_get. rewrite Hc. simpl.
+  destruct (f_end_dirty fr); intros H; inversion H; subst; unfold mono, hd_ndds; simpl; repeat split; auto; try lia;
+    repeat constructor; simpl; lia.
+Qed.
+
+Lemma op_copy_mono fr tag ref len data e :
+  f_cache fr = true -> 0 <= hd_ndds fr -> e <= f_end fr -> 0 <= len ->
+  forall fr' w, op_copy fr tag ref len data = (fr', w) -> mono e fr fr' w.
+Proof.
+  intros Hc Hn He Hl fr' w. unfold op_copy.
+  destruct (has_dd fr tag ref); [intros H; inversion H; subst; apply mono_refl|].
+  destruct (create_dd fr tag ref) as [[slot fr1] w1] eqn:C.
+  pose proof (create_dd_mono fr tag ref e Hc Hn He _ _ _ C) as M1.
+  destruct M1 as (A1 & B1 & C1 & D1).
+  destruct (getdiskblock fr1 len) as [[off fr2] w2] eqn:G.
+  destruct (getdiskblock_mono fr1 len e (eq_trans A1 Hc) Hl ltac:(lia) _ _ _ G) as (Hoff & Hw2 & M2 & Hend).
+  destruct M2 as (A2 & B2 & C2 & D2).
+  destruct (update_dd fr2 (fst slot) (snd slot) _) as [fr3 w3] eqn:U.
+  destruct (update_dd_mono fr2 _ _ _ e ltac:(congruence) ltac:(lia) _ _ U) as [Hw3 M3].
+  destruct M3 as (A3 & B3 & C3 & D3).
+  assert (M : mono e fr fr3 (w1 ++ w2 ++ w3)).
+  { unfold mono. repeat split; try congruence; try lia. repeat (apply Forall_app; split); auto. }
+  destruct (op_get fr3) as [fr4 w4] eqn:Gt.
+  destruct (op_get_mono fr3 e ltac:(congruence) ltac:(lia) _ _ Gt) as (M4 & E4 & _).
+  assert (M' : mono e fr fr4 ((w1 ++ w2 ++ w3) ++ w4)) by (eapply mono_trans; eauto).
+  destruct M' as (A5 & B5 & C5 & D5).
+  destruct data as [|b0 data'].
+  - intros H. injection H as <- <-. rewrite <- !app_assoc in C5. repeat split; auto.
+  - intros H. injection H as <- <-.
+    replace (w1 ++ w2 ++ w3 ++ w4 ++ [(off, b0 :: data')]) with (((w1 ++ w2 ++ w3) ++ w4) ++ [(off, b0 :: data')])
+      by (rewrite <- !app_assoc; reflexivity).
+    apply (mono_trans e fr fr4); [repeat split; auto|].
+    destruct (Z.ltb_spec (f_end fr4) (off + zlen (b0 :: data'))); unfold mono, hd_ndds; simpl; repeat split; auto;
+      try lia; repeat constructor; simpl; lia.
+Qed.
+
 Lemma op_ok1_len o : op_ok1 o = true ->
-  match o with OpPut _ _ l _ => 0 <= l | OpPutNew _ l _ => 0 <= l | _ => True end.
+  match o with OpPut _ _ l _ => 0 <= l | OpPutNew _ l _ => 0 <= l | OpCopy _ _ l _ => 0 <= l | _ => True end.
 Proof.
   destruct o; simpl; auto; intros H; repeat (apply andb_prop in H; destruct H as [H ?]);
     match goal with X : (0 <=? ?l) = true |- 0 <= ?l => apply Z.leb_le in X; exact X end.
@@ -311,7 +371,7 @@ Lemma op_ok_ok1 o : op_ok o = true -> op_ok1 o = true.
 Proof. destruct o; simpl; auto. Qed.
 
 Lemma op_ok_len o : op_ok o = true ->
-  match o with OpPut _ _ l _ => 0 <= l | OpPutNew _ l _ => 0 <= l | _ => True end.
+  match o with OpPut _ _ l _ => 0 <= l | OpPutNew _ l _ => 0 <= l | OpCopy _ _ l _ => 0 <= l | _ => True end.
 Proof. intros H. apply op_ok1_len. apply op_ok_ok1. exact H. Qed.
 
 Lemma forallb_ok_ok1 ops : forallb op_ok ops = true -> forallb op_ok1 ops = true.
@@ -333,7 +393,9 @@ Proof.
       - eapply op_put_mono; eauto.
       - eapply op_app_mono; eauto.
       - eapply op_putn_mono; eauto.
-      - eapply op_del_mono; eauto. }
+      - eapply op_del_mono; eauto.
+      - eapply op_get_mono; eauto.
+      - eapply op_copy_mono; eauto. }
     destruct (run_ops fr1 r) as [fr2 w2] eqn:R2.
     destruct M1 as (A & B & C & D).
     pose proof (IH fr1 e ltac:(congruence) ltac:(congruence) ltac:(lia) Hr _ _ R2) as M2.
